@@ -11,7 +11,7 @@ class (`…_spec`: given that the nested constructor calls succeed on shorter in
 establishes the invariant), and the induction over the nesting budget (`parseD_spec`).
 -/
 namespace Pox.Parse
-open Pox Pox.Layout Pox.Packet Pox.Checksum
+open Pox Pox.PktLayout Pox.Packet Pox.Checksum
 
 /-! ## `struct.unpack` of a slice of exactly the format's size succeeds, and its values are in range -/
 
